@@ -71,6 +71,8 @@ func evalMatcher(m *matcher, s state) mres {
 		return mres{false, -1}
 	case 'e':
 		return mres{false, m.status}
+	case 'l':
+		return mres{m.ekind == 1, -1}
 	}
 	for _, set := range m.sets {
 		r := evalSet(set, s)
@@ -160,8 +162,30 @@ func (x *specRun) handlers(hs []*handler) *stop {
 	return nil
 }
 
+func (x *specRun) tagSets(sets [][]*matcher) {
+	for _, s := range sets {
+		if len(s) == 0 {
+			x.tag("matcher:empty-set")
+		}
+		for _, m := range s {
+			switch m.kind {
+			case 'a':
+				x.tag("matcher:" + []string{"method", "host", "path", "header"}[m.field])
+			case 'e':
+				x.tag("matcher:error-kind-" + strconv.Itoa(m.ekind))
+			case 'l':
+				x.tag("matcher:legacy")
+			case 'n':
+				x.tag("matcher:not")
+				x.tagSets(m.sets)
+			}
+		}
+	}
+}
+
 func (x *specRun) routes(rs []*route) *stop {
 	for _, r := range rs {
+		x.tagSets(r.sets)
 		m := applies(r.sets, x.s)
 		if m.err >= 0 {
 			x.tag("matcher-error")
